@@ -14,7 +14,8 @@ from ..harness import Clause, Prop, Violation, require
 RATE = st.one_of(st.floats(min_value=1e-9, max_value=1 - 1e-9),
                  st.floats(min_value=0.01, max_value=0.99),
                  st.sampled_from([0.5, 0.1, 0.9, 1e-6, 0.999, 1e-100, 1e-300, 1e-309, 3e-310]))
-MOD_RATE = st.one_of(st.floats(min_value=1e-6, max_value=1 - 1e-6), st.floats(min_value=0.01, max_value=0.99))
+MOD_RATE = st.one_of(st.floats(min_value=1e-6, max_value=1 - 1e-6), st.floats(min_value=0.01, max_value=0.99),
+                     st.sampled_from([1e-9, 1e-12, 1e-17, 1e-30, 1e-100]))  # any rate in (0, 1)
 SIGMA = st.floats(min_value=-3, max_value=3).map(math.exp)
 MU = st.floats(min_value=-50, max_value=50)
 
@@ -147,12 +148,12 @@ def check_normal(case):
     m = NormalDataset.from_metrics(fnr, fpr, s1, s2, sigma_pos=case["sp"], sigma_neg=case["sn"])
     require(_isclose(m.fnr(0.0), fnr, 1e-9) and _isclose(m.fpr(0.0), fpr, 1e-9), "ds:from-metrics-rates",
             f"from_metrics({fnr!r},{fpr!r},..): fnr(0)={m.fnr(0.0)!r} fpr(0)={m.fpr(0.0)!r}")
-    nb_pos = round(m.p_pos * m.n)
-    require(abs(m.p_pos * m.n - nb_pos) <= 1e-6 and _size_ok(nb_pos, F(s1) / F(fnr))
-            and _size_ok(m.n - nb_pos, F(s2) / F(fpr)), "ds:from-metrics-sizes",
-            f"from_metrics({fnr!r},{fpr!r},{s1},{s2}): n={m.n} p_pos={m.p_pos!r} -> positives {nb_pos}, negatives "
-            f"{m.n - nb_pos}; expected floor({s1}/{fnr!r}) = {math.floor(F(s1) / F(fnr))}, floor({s2}/{fpr!r}) = "
-            f"{math.floor(F(s2) / F(fpr))}")
+    # the implied class sizes (see _size_ok): n is their sum, p_pos the share of the positives
+    exp_pos, exp_neg = int(float(F(s1) / F(fnr))), int(float(F(s2) / F(fpr)))
+    require(m.n == exp_pos + exp_neg and abs(m.p_pos - exp_pos / (exp_pos + exp_neg)) <= 4e-16,
+            "ds:from-metrics-sizes",
+            f"from_metrics({fnr!r},{fpr!r},{s1},{s2}): n={m.n} p_pos={m.p_pos!r}; implied sizes are {exp_pos} positives "
+            f"({s1}/{fnr!r}) and {exp_neg} negatives ({s2}/{fpr!r}), i.e. n={exp_pos + exp_neg}, p_pos={exp_pos / (exp_pos + exp_neg)!r}")
     require(BinaryLabel(m.score_class) == BinaryLabel.pos and m.sigma_pos == case["sp"] and m.sigma_neg == case["sn"],
             "ds:from-metrics-params", "")
     # sample
